@@ -1058,7 +1058,7 @@ pub fn stream_finish_leftover_l8_allow() {
     finish_leftover::<8, true>()
 }
 
-//@ harness props=C16,C05,C15,C07 tier=quick unwind=20 mem_gb=6 timeout=600 native=no
+//@ harness props=C16,C05,C15,C07,C13 tier=quick unwind=20 mem_gb=6 timeout=600 native=no
 //@ bound: data arm of Stream::write (real read_data, DecoderState::process_stream scripted): 8 staged leftover bytes, write(3 bytes), no failure; then another write (and finish)
 #[cfg_attr(kani, kani::proof)]
 #[cfg_attr(kani, kani::stub(std::fmt::format, crate::verif_common::stub_format))]
@@ -1118,7 +1118,7 @@ pub fn stream_data_arm_glue_l0_n6_fail0_allow() {
     data_arm_glue::<0, 6, 0, 0, true, 1>()
 }
 
-//@ harness props=C16,C05,C15,C07 tier=quick unwind=20 mem_gb=6 timeout=600 native=no
+//@ harness props=C16,C05,C15,C07,C13 tier=quick unwind=20 mem_gb=6 timeout=600 native=no
 //@ bound: data arm of Stream::write (real read_data, DecoderState::process_stream scripted): 0 staged leftover bytes, write(6 bytes), no leftover, no failure; then another write (and finish)
 #[cfg_attr(kani, kani::proof)]
 #[cfg_attr(kani, kani::stub(std::fmt::format, crate::verif_common::stub_format))]
@@ -1128,7 +1128,7 @@ pub fn stream_data_arm_glue_l0_n6_ok() {
     data_arm_glue::<0, 6, 18446744073709551615, 0, false, 1>()
 }
 
-//@ harness props=C16,C05,C15,C07 tier=quick unwind=20 mem_gb=6 timeout=600 native=no
+//@ harness props=C16,C05,C15,C07,C13 tier=quick unwind=20 mem_gb=6 timeout=600 native=no
 //@ bound: data arm of Stream::write (real read_data, DecoderState::process_stream scripted): 17 staged leftover bytes, write(1 bytes), 17 staged bytes, no failure; then another write (and finish)
 #[cfg_attr(kani, kani::proof)]
 #[cfg_attr(kani, kani::stub(std::fmt::format, crate::verif_common::stub_format))]
